@@ -254,11 +254,40 @@ func c11Exec(in Fields) (obs Fields) {
 			}
 			defer func() { c11ws.Pace = nil }()
 		}
+		slow := len(in) > 6 && in.S(6) == "slow"
+		const otherLine = "PRIVMSG #zz-other :b"
 		wc := make(chan []byte, 1)
-		go func() { wc <- c11ws.Call(func() { callMethod(c11ws.Conn, m, args) }) }()
+		go func() {
+			wc <- c11ws.Call(func() {
+				bdone := make(chan struct{})
+				if slow {
+					// while this call is blocked half-way (full output queue), another goroutine
+					// sends a one-piece message to another target on the same client: the
+					// pieces of THIS message must keep their own target
+					go func() {
+						defer close(bdone)
+						time.Sleep(30 * time.Millisecond)
+						c11ws.Conn.Privmsg("#zz-other", "b")
+					}()
+				} else {
+					close(bdone)
+				}
+				callMethod(c11ws.Conn, m, args)
+				<-bdone
+			})
+		}()
 		select {
 		case w := <-wc:
-			return F(splitCRLF(w))
+			ls := splitCRLF(w)
+			if slow { // the other goroutine's own line (exact match) is not part of this call's output
+				for k, l := range ls {
+					if l == otherLine {
+						ls = append(ls[:k:k], ls[k+1:]...)
+						break
+					}
+				}
+			}
+			return F(ls)
 		case <-time.After(60 * time.Second): // the method itself never returned
 			os.Exit(4)
 		}
